@@ -75,6 +75,12 @@ def words_for(rng, g, is_bytes, n):
     return out[:n + 2]
 
 
+# a literal and a regular expression spelled alike, in one interpreter, asked in both orders (terminal matching must not depend on what was asked before)
+TWINS = [('<start> ::= r"a.c" <x>*\n<x> ::= r"[ab]" | "q"\n', ["abc", "a.c", "abcaq", "a.cb", "axc[ab]", "ab"]),
+         ('<start> ::= "a.c" <x>*\n<x> ::= "[ab]" | "q"\n', ["abc", "a.c", "a.c[ab]q", "a.cb", "axc[ab]", "a.ca"]),
+         ('<start> ::= "a.c" <x>* r"a.c"\n<x> ::= r"[ab]" | "[ab]"\n', ["a.cabc", "abca.c", "a.c[ab]aa.c", "a.cbaxc", "abcabc"])]
+
+
 def gen_worker(args):
     seed, n_specs, per_spec = args
     import sys
@@ -86,14 +92,18 @@ def gen_worker(args):
     rng = random.Random(seed * 101 + 7)
     corr, prop, infos = [], [], []
     tries = 0
-    while len(infos) < n_specs * per_spec and tries < n_specs * 12:
+    fixed = {0: list(TWINS), 1: list(reversed(TWINS))}.get(seed % 1000, [])
+    while fixed or (len(infos) < n_specs * per_spec and tries < n_specs * 12):
         tries += 1
+        twin = fixed.pop(0) if fixed else None
         is_bytes = rng.random() < 0.35
         kinds = rng.choice([("bytes",), ("bytes", "bits"), ("bits",)]) if is_bytes else rng.choice([("str",), ("str", "regex"), ("str", "regex")])
         spec = gen_grammar.gen_spec(rng, kinds=kinds, depth=rng.randint(1, 3), n_nt=rng.randint(1, 4))
         if rng.random() < 0.2:
             spec = gen_grammar.gen_nullable_spec(rng)
             is_bytes = 'b"' in spec
+        if twin:
+            spec, is_bytes = twin[0], False
         try:
             fan = Fandango(spec)
             g = fan.grammar
@@ -103,10 +113,11 @@ def gen_worker(args):
                 continue
             rx = earley.RulesExport(g)
             gx = export.GrammarExport(g)
+            nullable_nts = sorted(k.name() for k, v in earley.nullable_map(g)[0].items() if v and not k.name().startswith("<_"))
         except Exception as e:
             res.bump("spec_skipped_" + type(e).__name__)
             continue
-        for w in words_for(rng, g, is_bytes, per_spec):
+        for w in (twin[1] if twin else words_for(rng, g, is_bytes, per_spec)):
             try:
                 forest = common.guarded(lambda: earley.forest(g, w), 1.5)
             except common.ImplTimeout:
@@ -125,7 +136,7 @@ def gen_worker(args):
             inp = rx.input_term(w)
             corr.append(f"({rx.term}, {coq_string('<start>')}, {inp}, {coq_nat(FUEL)}, {coq_list(trees)})")
             prop.append(f"({gx.term()}, {coq_string('<start>')}, {inp}, {coq_list(trees)})")
-            infos.append({"spec": spec, "word": repr(w), "impl_forest_size": len(forest),
+            infos.append({"spec": spec, "word": repr(w), "impl_forest_size": len(forest), "empty_deriving_nonterminals": nullable_nts,
                           "impl_forest": [str(export.tree_py(t))[:300] for t in forest[:6]]})
             res.count(("parse", spec, repr(w)), nontrivial=len(w) >= 2 and rx.n_rules >= 3)
             res.bump("accepted" if forest else "rejected")
@@ -165,7 +176,15 @@ def correspondence(res):
                             "fuzzer, one-edit near-misses and the empty word (<= 10 units); real Grammar.parse_forest vs the chart model on the exported "
                             "compiled rules (forests compared as sets), and every implementation tree judged by derives_b / yield / no-helper. "
                             "non-trivial = word of >= 2 units and >= 3 reachable compiled rules; distinct by (spec, word)")
+    # forests are compared as sets; with empty-deriving nonterminals the implementation and the chart model may enumerate different subsets of the
+    # (valid) empty derivations -- completeness is C05's subject, every implementation tree is still judged by c04_prop below
     bad = [i for i, v in enumerate(cc) if v not in (1, 5)]
+    soft = [i for i in bad if infos[i].get("empty_deriving_nonterminals")]
+    if soft:
+        mc = common.run_case_codes("C04", "corr_me", HEADER, [corr[i] for i in soft], "c04_corr_modulo_empty", chunk=40, ctype=CT)
+        same = {i for i, v in zip(soft, mc) if v in (1, 5)}
+        res.bump("forest_differs_only_in_empty_derivations", len(same))
+        bad = [i for i in bad if i not in same]
     res.bump("model_out_of_fuel", sum(1 for v in cc if v == 5))
     res.coverage["traces_validated_against_impl"] = sum(1 for v in cc if v == 1)
     for i, v in enumerate(pc):
